@@ -63,7 +63,22 @@ Fixpoint hget (h : heap) (i : N) : option obj :=
   | [] => None
   | (j, o) :: h' => if N.eqb i j then Some o else hget h' i
   end.
-Definition hset (h : heap) (i : N) (o : obj) : heap := (i, o) :: h.
+(* update in place (the first binding of i), else add a binding at the end *)
+Fixpoint hset (h : heap) (i : N) (o : obj) : heap :=
+  match h with
+  | [] => [(i, o)]
+  | (j, o') :: h' => if N.eqb i j then (j, o) :: h' else (j, o') :: hset h' i o
+  end.
+Lemma hget_hset h i o j : hget (hset h i o) j = if N.eqb j i then Some o else hget h j.
+Proof.
+  induction h as [|[k o'] h IH]; cbn [hset hget].
+  - destruct (N.eqb j i); reflexivity.
+  - destruct (N.eqb_spec i k) as [->|Hik]; cbn [hget].
+    + destruct (N.eqb j k); reflexivity.
+    + destruct (N.eqb_spec j k) as [->|Hjk].
+      * destruct (N.eqb_spec k i) as [E|_]; [exfalso; apply Hik; symmetry; exact E | reflexivity].
+      * exact IH.
+Qed.
 
 (* ---- dictionaries: insertion-ordered association lists *)
 Fixpoint dget (k : val) (kvs : list (val * val)) : option val :=
@@ -104,7 +119,10 @@ Fixpoint vremove (x : val) (l : list val) : list val :=
 Record prog := {
   pfuns : list (string * fundef);        (* "hy_eval_user", "REPL.runsource", ... *)
   pmro : list (string * list string);    (* class -> its linearisation, itself first *)
-  pvars : list string                    (* module-level variables (live in the module dict, heap id 0) *)
+  pvars : list string;                   (* module-level variables (live in the module dict, heap id 0) *)
+  pmatch : val -> list string -> bool    (* does an exception match an except clause naming these classes;
+                                            [table_match pmro] for a concrete program, a variable when a theorem
+                                            is to hold for every class hierarchy *)
 }.
 
 Inductive ores := ORet (v : val) | ORaise (e : val).
@@ -182,14 +200,19 @@ Definition mro_of (P : prog) (cls : string) : list string :=
   | None => [cls; "Exception"; "BaseException"]
   end.
 Definition strmem (x : string) (l : list string) : bool := existsb (String.eqb x) l.
+(* matching by the class table *)
+Definition table_match (mro : list (string * list string)) (e : val) (classes : list string) : bool :=
+  match e with
+  | VExc c _ =>
+      let l := match aget c mro with Some l => l | None => [c; "Exception"; "BaseException"] end in
+      existsb (fun k => strmem k l) classes
+  | _ => false
+  end.
 (* does exception e match an except clause naming these classes ([] = bare except) *)
 Definition exc_matches (P : prog) (e : val) (classes : list string) : bool :=
   match classes with
   | [] => true
-  | _ => match e with
-         | VExc c _ => existsb (fun k => strmem k (mro_of P c)) classes
-         | _ => false
-         end
+  | _ => pmatch P e classes
   end.
 
 Definition lookup_fun (P : prog) (g : string) : option fundef := aget g (pfuns P).
